@@ -189,7 +189,7 @@ def sweep_canary(chk, path, rowop, clause):
                             break
                 elif 'rs' in d:
                     for i, r in enumerate(d['rs']):
-                        if isinstance(r, int) and abs(r) > 1 and r != d.get('us', d.get('vs'))[i]:
+                        if isinstance(r, int) and abs(r) > 1 and r != (d.get('us') or d.get('vs') or [0] * len(d['rs']))[i]:
                             d['rs'][i] = -r
                             done = True
                             break
